@@ -56,6 +56,15 @@ fn ref_next(pushed: &[u8], pos: usize) -> Option<(Vec<u8>, usize)> {
     Some((pushed[pos + 2..pos + 2 + l].to_vec(), pos + 2 + l))
 }
 
+/// Deterministic frame (prefix + payload) of the "every length" family; cases name it by (len, seed)
+/// instead of carrying up to 64 KiB of hex.
+fn gen_frame(len: usize, seed: usize) -> Vec<u8> {
+    let mut f = Vec::with_capacity(len + 2);
+    f.extend_from_slice(&(len as u16).to_be_bytes());
+    f.extend((0..len).map(|i| ((i.wrapping_mul(31) ^ seed.wrapping_mul(131) ^ (i >> 8)) % 253) as u8));
+    f
+}
+
 pub fn judge(case: &Case, acc: &mut Acc) {
     acc.validated += 1;
     let mut buf = TcpBuffer::new();
@@ -92,6 +101,14 @@ pub fn judge(case: &Case, acc: &mut Acc) {
             let b = crate::refimpl::crypto::unhex(h);
             buf.push_data(&b);
             pushed.extend_from_slice(&b);
+            acc.evaluations += 1;
+        } else if let Some(q) = op.strip_prefix("Q:") {
+            // Q:<len>:<seed>:<from>:<to> = push bytes [from, to) of gen_frame(len, seed)
+            let f: Vec<usize> = q.split(':').map(|x| x.parse().unwrap()).collect();
+            let fr = gen_frame(f[0], f[1]);
+            let b = &fr[f[2].min(fr.len())..f[3].min(fr.len())];
+            buf.push_data(b);
+            pushed.extend_from_slice(b);
             acc.evaluations += 1;
         } else if op == "L" {
             if one_pull(&mut buf, &pushed, &mut pos, &mut pulled, acc).is_none() {
@@ -285,6 +302,29 @@ pub fn run(ctx: &Ctx) -> Report {
             }
         }
     }
+    // every frame length 0..=65535 (a length prefix that happens to read as something else - CR LF,
+    // a STUN type, a TLS record type - is one particular length): the frame between two small ones,
+    // pushed whole, and with a pull after the bare prefix / one byte into the prefix / mid-payload
+    let len_step = 1usize;
+    let every_len: Vec<Case> = (0..=65535usize)
+        .step_by(len_step)
+        .flat_map(|len| {
+            let total = len + 2;
+            let mut v = Vec::new();
+            let lead = "P:00021122".to_string();
+            let tail = "P:000133".to_string();
+            // whole
+            v.push(vec![lead.clone(), format!("Q:{len}:{len}:0:{total}"), tail.clone(), "D".into()]);
+            // prefix alone, pull, rest
+            v.push(vec![format!("Q:{len}:7:0:2"), "L".into(), format!("Q:{len}:7:2:{total}"), "D".into(), tail.clone(), "D".into()]);
+            if len % 4 == 2 || len < 300 {
+                // split inside the prefix and in the middle of the payload, pulling in between
+                v.push(vec![lead.clone(), "D".into(), format!("Q:{len}:3:0:1"), "L".into(), format!("Q:{len}:3:1:{}", 2 + len / 2), "L".into(), format!("Q:{len}:3:{}:{total}", 2 + len / 2), tail.clone(), "D".into()]);
+            }
+            v.into_iter().map(|ops| Case { op: "tcp".into(), data: vec![], args: vec![], text: ops }).collect::<Vec<_>>()
+        })
+        .collect();
+    let acc_len = crate::props::sweep(every_len.into_par_iter(), judge);
     // long streams (~450 KB, 250 frames with lengths from every size class) pushed in fixed-size
     // chunks under four pull policies: thresholds of an implementation (lazy compaction, capacity
     // shrinking, cursor wrap) are crossed with data still buffered
@@ -327,11 +367,11 @@ pub fn run(ctx: &Ctx) -> Report {
     let n_big = big_cases.len() as u64;
     let mut acc2 = crate::props::sweep(big_cases.into_par_iter(), judge);
     acc2.nontrivial += n_big;
-    let acc = acc1.merge(acc2);
+    let acc = acc1.merge(acc2).merge(acc_len);
     Report {
         acc,
         exhaustive: true,
-        rule: format!("all sequences of <= 3 frames with lengths from {{0,1,2,3,5}} (distinct counter contents) whose stream is <= {max_stream} bytes x every chunking (all 2^(n-1) split patterns) x pull schedules (per-chunk choice of none / one pull / pull until None then once more: exhaustive up to 5 chunks, 5 patterns above); plus frames of 65535, 65534, 256, 255, 0 bytes split around the length prefix and the frame end; payloads that are STUN messages or carry the magic cookie at every offset 0..=8 (frames of 4..40 bytes, with following frames; one piece, byte by byte, every two-way split); a ~450 KB stream of 250 frames (lengths from 14 size classes, 0..40000) pushed in chunks of 3 / 97 / 1460 / 4096 / 16384 / 65536 / 100000 bytes under 4 pull policies; evaluations = push/pull calls, distinct_nontrivial = operation sequences"),
+        rule: format!("all sequences of <= 3 frames with lengths from {{0,1,2,3,5}} (distinct counter contents) whose stream is <= {max_stream} bytes x every chunking (all 2^(n-1) split patterns) x pull schedules (per-chunk choice of none / one pull / pull until None then once more: exhaustive up to 5 chunks, 5 patterns above); plus frames of 65535, 65534, 256, 255, 0 bytes split around the length prefix and the frame end; every frame length 0..=65535 (whole between two small frames; the bare prefix first; split inside the prefix and mid-payload); payloads that are STUN messages or carry the magic cookie at every offset 0..=8 (frames of 4..40 bytes, with following frames; one piece, byte by byte, every two-way split); a ~450 KB stream of 250 frames (lengths from 14 size classes, 0..40000) pushed in chunks of 3 / 97 / 1460 / 4096 / 16384 / 65536 / 100000 bytes under 4 pull policies; evaluations = push/pull calls, distinct_nontrivial = operation sequences"),
         bounds: json!({"frame_sequences": n_streams, "max_stream_bytes": max_stream, "dedup": "none (TcpBuffer's Debug hides its contents)"}),
         assumptions: vec![],
         ..Default::default()
